@@ -183,6 +183,7 @@ func init() {
 			k := DefaultKnobs()
 			k.WBadProvide, k.WBadDecorate, k.WCycleCloser, k.WDupDecorate = 3, 1, 5, 3
 			k.WShadowCycle = 1
+			k.PSide = 5
 			k.WDecorate, k.WProvide, k.WInvoke, k.WScope = 5, 9, 8, 4
 			k.WVisualize, k.WString = 1, 1
 			k.PFresh = 65
@@ -215,6 +216,7 @@ func init() {
 			k.PInfo = 25
 			k.PCallback = 10
 			k.PNilOptArg = 12
+			k.PSide = 5
 			k.MaxOps = 20
 			return GenCase(t, scale(k, thorough))
 		},
